@@ -172,11 +172,21 @@ class FnText:
     is true when the fragment matches a node of the function modulo a consistent renaming of locals (Matcher) -
     or, for fragments that are not parseable on their own, when it is a substring of the normalised text."""
 
-    def __init__(self, ctx, fn):
+    def __init__(self, ctx, fn, unit=True):
         self.fn = fn
         self.m = Matcher(fn, ctx.prog)
         self.text = ' '.join(norm(s) for s in fn.body)
         ctx.touch(fn)
+        # the private helpers the function calls (and its nested functions) belong to what it does: a statement that
+        # was moved into an extracted method is still found
+        self.extra = []
+        if unit:
+            try:
+                from .common import unit_functions
+                for f in unit_functions(ctx.prog, fn)[1:]:
+                    self.extra.append((Matcher(f, ctx.prog), ' '.join(norm(s) for s in f.body)))
+            except Exception:
+                self.extra = []
 
     def __contains__(self, fragment):
         import os
@@ -189,7 +199,17 @@ class FnText:
         sub = fragment in self.text
         if sub and os.environ.get('SA_DEBUG_FRAGS'):
             print(f'TEXT-ONLY[{"noparse" if not parse_ok else "nomatch"}] {self.fn.qualname}: {fragment!r}')
-        return sub
+        if sub:
+            return True
+        for m, text in self.extra:
+            try:
+                if m.has(fragment):
+                    return True
+            except AnalysisError:
+                pass
+            if fragment in text:
+                return True
+        return False
 
     def count(self, fragment):
         n = self.text.count(fragment)
@@ -197,6 +217,13 @@ class FnText:
             n = max(n, self.m.count(fragment))
         except AnalysisError:
             pass
+        for m, text in self.extra:
+            k = text.count(fragment)
+            try:
+                k = max(k, m.count(fragment))
+            except AnalysisError:
+                pass
+            n += k
         return n
 
     def find(self, sub):
